@@ -1,0 +1,45 @@
+//! Verification hooks.  Only compiled with `--cfg resolved_verif`.
+//!
+//! When `RESOLVED_VERIF_GATE` names a unix socket, every gate call
+//! connects to it, announces itself and blocks until told to go on, so
+//! that a controller can decide the order in which tasks pass the
+//! named points.  Without the variable the gates do nothing.
+
+use std::cell::Cell;
+use std::io::{BufRead, BufReader, Write};
+use std::os::unix::net::UnixStream;
+use std::sync::Arc;
+
+thread_local! {
+    static TAG: Cell<u32> = const { Cell::new(0) };
+}
+
+/// Tag used by the reload task.
+pub const RELOAD_TAG: u32 = 0x1_0000;
+
+/// Install the gate client if `RESOLVED_VERIF_GATE` is set.
+pub fn install() {
+    if let Ok(path) = std::env::var("RESOLVED_VERIF_GATE") {
+        dns_resolver::verif::set_gate(Some(Arc::new(move |name| arrive(&path, name))));
+    }
+}
+
+/// A breakpoint belonging to the task identified by `tag` (the query
+/// ID, or `RELOAD_TAG`).  Gates reached later on the same thread
+/// without a tag of their own inherit it.
+pub fn gate(name: &'static str, tag: u32) {
+    TAG.with(|t| t.set(tag));
+    dns_resolver::verif::gate(name);
+}
+
+fn arrive(path: &str, name: &'static str) {
+    let tag = TAG.with(Cell::get);
+    let Ok(mut stream) = UnixStream::connect(path) else {
+        return;
+    };
+    if writeln!(stream, "ARRIVE {name} {tag}").is_err() {
+        return;
+    }
+    let mut line = String::new();
+    let _ = BufReader::new(stream).read_line(&mut line);
+}
